@@ -14,6 +14,12 @@ def main(tier):
     # for the serial client, an empty reassembly buffer
     for cls in CLIENTS:
         run.add(I.ConnectImplTask('C12', cls))
+    # "a decoder with the same settings": each client owns its decoder and encoder, and these share no state with those of other
+    # clients (no mutable class attributes, no module-level state: the frame scan of C16 over decoder / encoder / message)
+    from pyvc.tasks import LemmaTask
+    from props.C16 import purity_lemmas
+    for mod in ('decoder', 'encoder', 'message'):
+        run.add(LemmaTask(f'C12:frame-scan[{mod}]', purity_lemmas(mod, 'C12')))
     from props import C12_extra
     C12_extra.add(run, tier)
     return run.execute()
